@@ -123,7 +123,37 @@ def _type_time(db, chk, m, cls, G):
         exp_time.append(("replace", mpt, ("meltval", mb)))
         exp_status.append(("replace", mpt, ("meltvar", mb)))
     template = bool(tl) and all(isinstance(x, tuple) and x and x[0] == "replace" for x in tl)          # the +-marker sweep built by melt + replace; another construction of the boundaries is not understood (not wrong)
-    chk.ob(rule, "sort key = the time column: start and end of every merged operand, each exactly once", (sorted(tl, key=repr) == sorted(exp_time, key=repr)) if template else None, where,
+
+    def piece(x):
+        """a piece of a boundary column in canonical form: replace(map, 'ts') -> the mapped marker, replace(map, <time term>) -> the time term (times are numbers: a map
+        keyed by column names leaves them alone), coldata(X) (a column given as positional data / a broadcast scalar) -> X"""
+        while isinstance(x, tuple) and x:
+            if x[0] == "coldata" and len(x) == 2:
+                x = x[1]
+            elif x[0] == "replace" and len(x) == 3 and x[1][0] == "dict" and all(T.is_const(k_) and isinstance(k_[1], str) for k_, _v in x[1][1]):
+                inner = x[2]
+                if T.is_const(inner):
+                    x = dict((k_[1], v_) for k_, v_ in x[1][1]).get(inner[1], inner)
+                    break
+                x = inner
+            else:
+                break
+        return x
+    status_terms = T.find(rows, lambda s_: s_[0] == "win" and s_[1] == "cumsum")
+    pairs_ok = None
+    if not template and status_terms:
+        tp = [piece(x) for x in leaves(TIME, melt=True)]
+        sp = [piece(x) for x in leaves(status_terms[0][3], melt=True)]
+        keep = [i_ for i_, x in enumerate(tp) if not (isinstance(x, tuple) and x and x[0] == "series")] if len(tp) == len(sp) else []
+        got_pairs = sorted(((tp[i_], sp[i_]) for i_ in keep), key=repr)
+        want_pairs = sorted([(c_["frame"].col("ts"), T.C(val[ty_])) for ty_, c_ in zip(types, hook.calls)] + [(c_["frame"].col("end"), T.C(-val[ty_])) for ty_, c_ in zip(types, hook.calls)], key=repr)
+        if got_pairs and all(T.is_const(b_) for _a, b_ in got_pairs):
+            pairs_ok = got_pairs == want_pairs
+            chk.ob(rule, "sweep boundaries (built without melt): +v at the start and -v at the end of every merged interval of every operand, each exactly once", pairs_ok, where,
+                   found=[(T.show(a_)[:50], T.show(b_)) for a_, b_ in got_pairs], accepted=[(T.show(a_)[:50], T.show(b_)) for a_, b_ in want_pairs],
+                   why="markers {start:+v, end:-v} with the type's own v; a missing or duplicated operand or a swapped sign breaks the running state")
+    if template or pairs_ok is None:
+      chk.ob(rule, "sort key = the time column: start and end of every merged operand, each exactly once", (sorted(tl, key=repr) == sorted(exp_time, key=repr)) if template else None, where,
            found=[T.show(x)[:160] for x in tl], accepted=[T.show(x)[:160] for x in exp_time],
            why="markers {ts:+v, end:-v} with the type's own v; a missing or duplicated operand or a swapped sign breaks the running state")
     STATUS_l = None
@@ -131,7 +161,7 @@ def _type_time(db, chk, m, cls, G):
     if len(run_terms) >= 1:
         RUN = run_terms[0]
         sl = [x for x in leaves(RUN[3]) if x[0] != "coldata"]
-        chk.ob(rule, "running = cumsum of the marker column over the time-sorted rows", (RUN[4] == ctx0 and sorted(sl, key=repr) == sorted(exp_status, key=repr)) if template else None, where,
+        chk.ob(rule, "running = cumsum of the marker column over the time-sorted rows", (RUN[4] == ctx0 and sorted(sl, key=repr) == sorted(exp_status, key=repr)) if template else ((RUN[4] == ctx0) if pairs_ok else None), where,
                found=[T.show(x)[:120] for x in sl] + [T._ctx(RUN[4])[:80]], accepted="cumsum(status) in time order")
         check_term(chk, rule, "rows kept iff running > 0 (some analysed kernel is running)", where, rows, [T.cmp(">", RUN, T.C(0))],
                    "running >= 0 adds idle gaps to a label; running > v drops single-type time")
